@@ -415,6 +415,7 @@ impl C30 {
         let mut executed = 0u64;
         let mut cfg_changes = 0u64;
         let mut resets = 0u64;
+        let mut added_devs = 0u16;
         let mut fp = Fp::new();
         for (i, op) in scn.ops.iter().enumerate() {
             let before = w.sim.instructions_run;
@@ -571,6 +572,13 @@ impl C30 {
                         w.sim.mem[*p].set(0);
                     }
                 }
+            }
+            // device ids keep counting from where they were (the device table survived the reset)
+            let expect_id = 4 + scn.devs.len() as u16 + added_devs;
+            match w.sim.device_handler.add_device(lc3_ensemble::sim::device::NullDevice, &[]) {
+                Ok(id) if id == expect_id => added_devs += 1,
+                Ok(id) => return fail("reset-device-ids", format!("a device added after reset got id {id}, expected {expect_id}")),
+                Err(_) => return fail("reset-device-ids", "add_device with no ports failed after reset".into()),
             }
             // flags untouched
             if w.sim.flags != flags_now {
